@@ -526,6 +526,14 @@ func checkRejectReasonsAs(p *Program, r *Report, rule string) {
 				}
 				if op, cx, cy, cpos, ok := cmpOf(iff.Cond); ok && len(d.Preds) == 1 && (id.Succs[0] == d || id.Succs[1] == d) {
 					ctl, onTrue = &cmpT{op, cx, cy, cpos}, id.Succs[0] == d
+				} else if call, isCall := iff.Cond.(*ssa.Call); isCall && len(d.Preds) == 1 && (id.Succs[0] == d || id.Succs[1] == d) {
+					// the refusal is decided by a helper that answers with a boolean: the comparison that
+					// controls the helper's returns of the refusing value
+					if op, cx, cy, cpos, onT, ok := boolResultCmp(p, call, id.Succs[0] == d, 0); ok {
+						ctl, onTrue = &cmpT{op, cx, cy, cpos}, onT
+					} else {
+						break
+					}
 				} else {
 					break
 				}
@@ -590,4 +598,70 @@ func checkRejectReasonsAs(p *Program, r *Report, rule string) {
 	if n == 0 {
 		r.Unk("error returns of the construction", p.Pos(F.Pos()), "no error return found under NewSlimTrie")
 	}
+}
+
+// boolResultCmp: call is a call of a loop-free boolean function of package trie all of whose returns are
+// constants; exactly one return has the value want, and it is controlled by a comparison — written in
+// the function, in a single-block helper, or in a helper that answers at once under an option (which
+// only removes refusals). Returns that comparison (operands are values of the callee) and whether the
+// return lies on its true edge.
+func boolResultCmp(p *Program, call *ssa.Call, want bool, depth int) (token.Token, ssa.Value, ssa.Value, token.Pos, bool, bool) {
+	fail := func() (token.Token, ssa.Value, ssa.Value, token.Pos, bool, bool) {
+		return 0, nil, nil, token.NoPos, false, false
+	}
+	h := calleeOf(call)
+	if h == nil || depth > 2 || !trieScope(h) || len(h.Blocks) == 0 || call.Call.IsInvoke() {
+		return fail()
+	}
+	var target *ssa.Return
+	for _, ret := range returnsOf(h) {
+		if len(ret.Results) != 1 {
+			return fail()
+		}
+		cv, isC := constBool(ret.Results[0])
+		if !isC {
+			return fail()
+		}
+		if cv == want {
+			if target != nil {
+				return fail()
+			}
+			target = ret
+		}
+	}
+	if target == nil {
+		return fail()
+	}
+	for d := target.Block(); d != nil; d = d.Idom() {
+		id := d.Idom()
+		if id == nil {
+			break
+		}
+		iff, ok := lastInstr(id).(*ssa.If)
+		if !ok {
+			continue
+		}
+		if len(d.Preds) != 1 || (id.Succs[0] != d && id.Succs[1] != d) {
+			return fail()
+		}
+		onT := id.Succs[0] == d
+		if op, cx, cy, cpos, ok := cmpOf(iff.Cond); ok {
+			return op, cx, cy, cpos, onT, true
+		}
+		if op, cx, cy, cpos, _, optVal, ok := optBypassCmp(sharedBuilderFlow(p), iff.Cond); ok {
+			// under the option the helper answers optVal; the refusal is on the edge for !optVal or the
+			// option only adds refusals — accept only the first
+			if optVal != onT {
+				// the return is reached when the helper's result is onT; the comparison decides that
+				// result when the option is false
+				return op, cx, cy, cpos, onT, true
+			}
+			return fail()
+		}
+		if c2, ok := iff.Cond.(*ssa.Call); ok {
+			return boolResultCmp(p, c2, onT, depth+1)
+		}
+		return fail()
+	}
+	return fail()
 }
